@@ -556,6 +556,9 @@ func genAPICase(t *rapid.T) APICase {
 		State: rapid.SampledFrom([]string{"empty", "started", "started", "degraded", "wo"}).Draw(t, "state"),
 		Extra: rapid.SampledFrom([]string{"initial", "closed", "closed", "open", "rebuilding"}).Draw(t, "extra"),
 	}
+	if rapid.IntRange(0, 3).Draw(t, "extrasize") == 0 {
+		cfg.ExtraSize = rapid.SampledFrom([]string{"bigger", "smaller"}).Draw(t, "extrasizekind")
+	}
 	// in a third of the cases one or two of the requests the controller sends to
 	// its replicas while it serves a management request get no answer (connection closed)
 	if rapid.IntRange(0, 2).Draw(t, "drops") == 0 {
@@ -626,6 +629,9 @@ func TestC14(t *testing.T) {
 		labels := []string{"state:" + ac.Cfg.State, "extra:" + ac.Cfg.Extra}
 		if len(ac.Cfg.Drop) > 0 {
 			labels = append(labels, "replica-requests-dropped")
+		}
+		if ac.Cfg.ExtraSize != "" {
+			labels = append(labels, "extra-replica-"+ac.Cfg.ExtraSize)
 		}
 		for c := range classes {
 			labels = append(labels, "class:"+c)
